@@ -8,7 +8,7 @@
 From Coq Require Import ZArith List Bool Lia.
 Import ListNotations.
 From Osmo Require Import Gen.C09_consts C09.Model C09.Spec C09.ProofsCoins C09.ProofsDistr C09.ProofsLoop
-  C09.ProofsInv C09.ProofsLife C09.Proofs.
+  C09.ProofsInv C09.ProofsLife C09.ProofsShare C09.ProofsShare2 C09.Proofs.
 Open Scope Z_scope.
 
 (* ---- never over-pays: DistributedCoins <= Coins coin-wise, for every gauge, after every history *)
@@ -175,6 +175,39 @@ Proof.
 Qed.
 Print Assumptions C09_share_refuted.
 
+(* PROVED PART (what is missing for the full statement is exactly the two findings): under the hypotheses
+     - [consistent_receivers]: locks of one owner have one reward receiver            (excludes C09-F4)
+     - [share_hyp]: no gauge with qualifying locks falls under the small-gauge filter   (excludes C09-F2),
+       lock sums fit 256 bits and epoch counts fit 63 bits (the SDK's integer ranges)
+     - [thr_positive]: a successful min-value quote is at least 1 (the pools return an error otherwise)
+   every address other than the module account is credited, at every successful epoch end after every history,
+   EXACTLY the sum over the gauges that take part and over the qualifying locks it is the receiver of, of
+   floor(remaining * lockAmount / (totalLocked * epochsLeft)) when that is positive and worth the minimum, else 0;
+   epochsLeft = 1 for perpetual gauges (they pay everything each epoch). *)
+Theorem C09_per_epoch_share_partial : forall cfg funds ops thr s', cfg_ok cfg -> thr_positive thr ->
+  let s := run cfg (init_state funds) ops in
+  consistent_receivers (s_locks s) ->
+  (forall g, takes_part s g -> share_hyp cfg (s_locks s) g) ->
+  after_epoch_end cfg thr s = Ok s' ->
+  forall a d, a <> MODULE -> s_bank s' a d - s_bank s a d = ideal_credit cfg thr s a d.
+Proof. intros; eapply share_credit; eauto; apply reachable_inv; assumption. Qed.
+Print Assumptions C09_per_epoch_share_partial.
+
+(* the same at the level of one lock and one gauge, WITHOUT the two hypotheses about findings: what distributeInternal
+   adds for a lock is, coin by coin, the floor share when positive and worth the minimum, else nothing *)
+Theorem C09_lock_share : forall cfg thr den a remain cache acc dc cache', thr_positive thr -> cache_ok thr cache ->
+  lock_coins cfg thr den a remain cache acc = Ok (dc, cache') ->
+  cache_ok thr cache' /\ forall d, amount_of dc d = amount_of acc d + row_exact cfg thr den a remain d.
+Proof. exact lock_coins_exact. Qed.
+Print Assumptions C09_lock_share.
+
+(* perpetual gauges pay everything each epoch, up to rounding dust: the floors of the shares of R among n locks sum to
+   more than R - n and at most R *)
+Theorem C09_perpetual_pays_everything : forall R ls, 0 <= R -> locks_pos ls -> ls <> [] ->
+  R - sum_div R (sum_amt ls) ls < Z.of_nat (length ls) /\ sum_div R (sum_amt ls) ls <= R.
+Proof. exact perpetual_dust. Qed.
+Print Assumptions C09_perpetual_pays_everything.
+
 (* ---- every epoch end distributes *)
 (* FULL statement implied by "at each epoch an active gauge pays every qualifying lock": the epoch end does not fail *)
 Definition C09_epoch_succeeds_full : Prop :=
@@ -203,5 +236,25 @@ Example C09_nonvacuous :
   s_bank s 1 0 - w_funds 1 0 = 2500000000 /\ s_bank s 2 0 - w_funds 2 0 = 7500000000.
 Proof.
   split; [exact w_cfg_ok|]. split; [apply all_qualified_b_spec; vm_compute; reflexivity|].
+  vm_compute. repeat split; reflexivity.
+Qed.
+
+(* non-vacuity of the share theorem: two owners, two locks, one 2-epoch gauge; the hypotheses hold and the credits
+   are the floors 10^10/2 * 1000/4000 and 10^10/2 * 3000/4000 *)
+Definition nv2_ops : list op :=
+  [ OGauge 0 false 0 3600000 [(0, 10 ^ 10)] 0 2; OLock 1 0 1000 3600000; OLock 2 0 3000 10800000; OTime 86400000 ].
+Definition nv2_pre : state := run w_cfg (init_state w_funds) nv2_ops.
+Example C09_share_nonvacuous :
+  cfg_ok w_cfg /\ thr_positive w_thr /\ consistent_receivers (s_locks nv2_pre) /\
+  (forall g, takes_part nv2_pre g -> share_hyp w_cfg (s_locks nv2_pre) g) /\
+  after_epoch_end w_cfg w_thr nv2_pre = Ok (epoch_of w_cfg w_thr nv2_pre) /\
+  ideal_credit w_cfg w_thr nv2_pre 1 0 = 1250000000 /\ ideal_credit w_cfg w_thr nv2_pre 2 0 = 3750000000.
+Proof.
+  split; [exact w_cfg_ok|]. split; [exact w_thr_positive|]. split.
+  { intros l1 l2 H1 H2. vm_compute in H1, H2.
+    destruct H1 as [<-|[<-|[]]]; destruct H2 as [<-|[<-|[]]]; vm_compute; intros; congruence. }
+  split.
+  { intros g [Hi _]. vm_compute in Hi. destruct Hi as [<-|[]]. unfold share_hyp. split; [|split; vm_compute; reflexivity].
+    intros remain Hr _. vm_compute in Hr. inversion Hr; subst. vm_compute. reflexivity. }
   vm_compute. repeat split; reflexivity.
 Qed.
